@@ -12,7 +12,7 @@ use serde_json::{json, Value};
 
 #[derive(Clone, Debug)]
 pub struct Case {
-    pub presence: usize, // 0 tool+base, 1 tool, 2 base, 3 none, 4 moved base + tool
+    pub presence: usize, // 0 tool+base, 1 tool, 2 base, 3 none, 4 moved base + tool, 5 tool+base under a parallelogram (J2 drives J3)
     pub layout: usize,
     pub safety: usize, // 0 touch, 1 3 cm
     pub limits: usize, // 0 wide, 1 tight
@@ -30,6 +30,7 @@ fn cell_for(c: &Case) -> CellDesc {
             cell.tool = None;
         }
         4 => cell.base = Some(Iso::new(rotz(0.4), [0.3, -0.2, 0.1])),
+        5 => cell.para = Some((1, 2, 1.0)),
         _ => {}
     }
     cell.envs = match c.layout {
@@ -71,10 +72,19 @@ pub fn eval(c: &Case, pools: bool) -> Result<(Vec<(String, String)>, String), &'
     let mut classes = [0usize; 3]; // offered, illegal, colliding
     let mut blocked_by: Vec<String> = Vec::new();
     let mut tool_only = false;
+    let mut moved_links_only = false;
     for k in 0..6 {
         for target in [&from, &to] {
             let mut cand = c.initial;
             cand[k] = target[k];
+            if cell.para.is_some() {
+                // "within limits" is read on the offered vector; where the wrapped robot's own joint vector would be judged
+                // differently the case is ambiguous and not used
+                let inner = cell.inner_joints(&cand);
+                if arc_member6(&cell.limits.from, &cell.limits.to, &cand, 1e-9) != arc_member6(&cell.limits.from, &cell.limits.to, &inner, 1e-9) {
+                    return Err("limits reading ambiguous under the coupling");
+                }
+            }
             match arc_member6(&cell.limits.from, &cell.limits.to, &cand, 1e-9) {
                 ArcVerdict::Outside => {
                     classes[1] += 1;
@@ -93,6 +103,10 @@ pub fn eval(c: &Case, pools: bool) -> Result<(Vec<(String, String)>, String), &'
                 // is this candidate blocked *only* by the tool (or a moved link) meeting a link before the moved joint?
                 if !det.is_empty() && det.iter().all(|&(a, b)| a < k && b == rs_opw_kinematics::kinematic_traits::J_TOOL) {
                     tool_only = true;
+                }
+                // ... or only by two links that both lie at or beyond the moved joint (possible when a coupling bends the chain)?
+                if !det.is_empty() && det.iter().all(|&(a, b)| a >= k && b >= k && a < 6 && b < 6) {
+                    moved_links_only = true;
                 }
                 blocked_by.push(format!("J{}:{:?}", k + 1, det));
                 continue;
@@ -127,7 +141,7 @@ pub fn eval(c: &Case, pools: bool) -> Result<(Vec<(String, String)>, String), &'
             }
         }
     }
-    Ok((fails, format!("offered{}:illegal{}:colliding{}{}", classes[0], classes[1], classes[2].min(6), if tool_only { ":tool-vs-unmoved-link-only" } else { "" })))
+    Ok((fails, format!("offered{}:illegal{}:colliding{}{}", classes[0], classes[1], classes[2].min(6), if tool_only { ":tool-vs-unmoved-link-only" } else { "" }).to_string() + if moved_links_only { ":moved-links-only" } else { "" }))
 }
 
 fn case_json(c: &Case) -> Value {
@@ -152,7 +166,7 @@ pub fn run(ctx: &Ctx) -> Report {
     let mags = [0.35, 1.3, 2.2, 2.9, 0.8, 1.8];
     let n_delta = if thorough { 72 } else { 24 };
     let layouts = [0usize, 2, 3, 9, 10, 20];
-    let sizes = [5, layouts.len(), 2, 2, initials.len(), n_delta];
+    let sizes = [6, layouts.len(), 2, 2, initials.len(), n_delta];
     let n = par::product(&sizes);
     let mut rep = par::run(n, |idx, r| {
         let mut ix = [0usize; 6];
@@ -179,16 +193,19 @@ pub fn run(ctx: &Ctx) -> Report {
     if !rep.signatures.iter().any(|s| !s.contains("colliding0")) && rep.fails.is_empty() {
         rep.machinery_errors.push("no candidate was ever rejected for a collision".into());
     }
-    if !rep.signatures.iter().any(|s| s.ends_with("tool-vs-unmoved-link-only")) && rep.fails.is_empty() {
+    if !rep.signatures.iter().any(|s| s.ends_with("moved-links-only")) && rep.fails.is_empty() {
+        rep.machinery_errors.push("no candidate blocked only by two links at or beyond the moved joint (parallelogram cell)".into());
+    }
+    if !rep.signatures.iter().any(|s| s.contains("tool-vs-unmoved-link-only")) && rep.fails.is_empty() {
         rep.machinery_errors.push("no candidate blocked only by the tool meeting a link before the moved joint".into());
     }
     rep.traces_validated = rep.transitions;
-    rep.rule = "synthetic cell (with/without base and tool, moved base) x environments x safety {touch, 3 cm} x limits {wide, tight} x collision-free initial \
+    rep.rule = "synthetic cell (with/without base and tool, moved base, parallelogram J2->J3 on top) x environments x safety {touch, 3 cm} x limits {wide, tight} x collision-free initial \
                 postures x from/to = initial -+ delta with per-joint magnitudes {0.35,0.8,1.3,1.8,2.2,2.9} (moving a joint into free space, self-collision, the base, \
                 the environment or out of limits); oracle: the 12 single-joint candidates kept iff arc membership accepts them and the full collides() \
                 of the same robot reports them free, compared as multisets; every 8th case re-run in rayon pools of 1, 2, 4, 8, 16 threads; \
                 signature = (offered, illegal, colliding)".into();
-    rep.set("axes", json!({"presence": 5, "layouts": layouts.len(), "safety": 2, "limits": 2, "initials": initials.len(), "delta_vectors": n_delta}));
+    rep.set("axes", json!({"presence": 6, "layouts": layouts.len(), "safety": 2, "limits": 2, "initials": initials.len(), "delta_vectors": n_delta}));
     rep.assumptions.push("the full collision check used as reference is tied to the brute-force pair oracle by C10".into());
     rep
 }
